@@ -129,6 +129,8 @@ class Property(Entity):
     def definition(self, d):
         util.check_attr_type(d, str)
         self._h5dataset.set_attr("definition", d)
+        if self.file.auto_update_timestamps:
+            self.force_updated_at()
 
     @property
     def unit(self):
@@ -144,6 +146,8 @@ class Property(Entity):
 
         util.check_attr_type(new, str)
         self._h5dataset.set_attr("unit", new)
+        if self.file.auto_update_timestamps:
+            self.force_updated_at()
 
     @property
     def uncertainty(self):
@@ -160,6 +164,8 @@ class Property(Entity):
         util.check_attr_type(uncertainty, Number)
         uncertainty = float(uncertainty) if uncertainty is not None else None
         self._h5dataset.set_attr("uncertainty", uncertainty)
+        if self.file.auto_update_timestamps:
+            self.force_updated_at()
 
     @property
     def reference(self):
@@ -175,6 +181,8 @@ class Property(Entity):
     def reference(self, ref):
         util.check_attr_type(ref, str)
         self._h5dataset.set_attr("reference", ref)
+        if self.file.auto_update_timestamps:
+            self.force_updated_at()
 
     @property
     def dependency(self):
@@ -184,6 +192,8 @@ class Property(Entity):
     def dependency(self, dep):
         util.check_attr_type(dep, str)
         self._h5dataset.set_attr("dependency", dep)
+        if self.file.auto_update_timestamps:
+            self.force_updated_at()
 
     @property
     def dependency_value(self):
@@ -193,6 +203,8 @@ class Property(Entity):
     def dependency_value(self, depval):
         util.check_attr_type(depval, str)
         self._h5dataset.set_attr("dependency_value", depval)
+        if self.file.auto_update_timestamps:
+            self.force_updated_at()
 
     @property
     def value_origin(self):
@@ -202,6 +214,8 @@ class Property(Entity):
     def value_origin(self, origin):
         util.check_attr_type(origin, str)
         self._h5dataset.set_attr("value_origin", origin)
+        if self.file.auto_update_timestamps:
+            self.force_updated_at()
 
     @property
     def odml_type(self):
